@@ -52,7 +52,7 @@ GasKind == "gasUsed-of-tx-rejected-before-ante-handler"
 QNorm(k) == LET dots == {i \in 1..Len(k) : SubSeq(k, i, i) = "."} IN
             IF Cardinality(dots) < 2 THEN k
             ELSE LET second == CHOOSE i \in dots : Cardinality({j \in dots : j < i}) = 1 IN SubSeq(k, 1, second - 1)
-UnbondKinds == {"undelegate", "redelegate", "pc_undelegate"}
+UnbondKinds == {"undelegate", "redelegate", "pc_undelegate", "agent_undelegate"}
 DivergenceProp(r1, r2) == IF restarted[r1] \/ restarted[r2] THEN "C20" ELSE "C01"
 
 TraceInit == l = 1 /\ recs = <<>> /\ restarted = <<>> /\ restartedAt = <<>> /\ tainted = {} /\ impTaint = "" /\ qsnaps = <<>> /\ viol = {} /\ nscn = 0 /\ ncommit = 0
@@ -116,12 +116,14 @@ TraceNext ==
                  \* the ante handler is F13's subject - a fresh process - and is not compared here)
                  LET differs(t) == \/ t.code # t.gen_code \/ t.codespace # t.gen_codespace \/ t.data # t.gen_data
                                    \/ (t.gas # t.gen_gas /\ ~(t.gen_code # 0 /\ t.gasWanted = 0))
+                                   \/ t.egas # t.gen_egas      \* (the gas figure inside an Ethereum response)
                      bad == {x \in 1..Len(e.txs) : differs(e.txs[x])}
                      first == IF bad = {} THEN 0 ELSE CHOOSE x \in bad : \A y \in bad : x <= y
                      \* x/staking's unbonding-id counter is not part of the genesis document: the first unbonding
                      \* operation after an import reads no counter (8 bytes less: 24 gas) and re-issues ids from 1
                      counterLost(t) == /\ t.k \in UnbondKinds /\ t.code = t.gen_code /\ t.code = 0 /\ t.data = t.gen_data
-                                       /\ t.gen_gas - t.gas = 24
+                                       /\ \/ t.gen_gas - t.gas = 24 /\ t.gen_egas - t.egas \in {0, 24}
+                                          \/ t.gen_gas = t.gas /\ t.gen_egas - t.egas = 24
                      what(t) == IF t.code # t.gen_code \/ t.codespace # t.gen_codespace THEN "code"
                                 ELSE IF t.data # t.gen_data THEN "data" ELSE "gasUsed"
                      \* F13 on the imported chain (a fresh application object): a transaction rejected before the ante
